@@ -35,6 +35,15 @@ def ddOK (x : Xml) : Bool :=
         | .error _ => true)
     | _ => true)
 
+/-- range markers below a hyperlink (found by qualified name, whatever their prefix) carry `w:id` -/
+def linkMarkersOK (x : Xml) : Bool :=
+  (match wq x "commentRangeStart" with
+    | .ok q => (descTaggedL q x.kids).all hasId
+    | .error _ => true) &&
+  (match wq x "commentRangeEnd" with
+    | .ok q => (descTaggedL q x.kids).all hasId
+    | .error _ => true)
+
 /-- the local, schema-guaranteed facts about one element -/
 def validElem (x : Xml) : Bool :=
   wBoundb x &&
@@ -48,6 +57,7 @@ def validElem (x : Xml) : Bool :=
   | some "PARAGRAPH" => ilvlOK x
   | some "TABLE_CELL" => spanOK x
   | some "FORM_DDLIST" => ddOK x
+  | some "HYPERLINK" => linkMarkersOK x
   | _ => true
 
 mutual
